@@ -22,7 +22,7 @@ RULE = ('A generated ledger (G1, either attribution mode, load factor 4 in a thi
         'Non-trivial = document with >= 3 directives, target neither first nor last token, new text of different length or with a line break.')
 ASSUMPTIONS = ['an assignment that raises (text outside the class\'s language) ends the program; refusals are C19\'s subject']
 SHRINK_LISTS = ('ops', 'dirs')
-REQUIRED_CLASSES = ('kind:value', 'kind:raw', 'kind:indent', 'respelling', 'lf:4', 'tok:BLOCK_COMMENT', 'tok:ESCAPED_STRING', 'tok:INDENT', 'zero-width-target')
+REQUIRED_CLASSES = ('kind:value', 'kind:raw', 'kind:indent', 'respelling', 'same-token-again', 'lf:4', 'tok:BLOCK_COMMENT', 'tok:ESCAPED_STRING', 'tok:INDENT', 'zero-width-target')
 
 
 def run_case(case: dict) -> Result:
@@ -73,6 +73,8 @@ def _run(case: dict, res: Result) -> Result:
         classes.add('tok:' + op['cls'])
         if op.get('respell'):
             classes.add('respelling')
+        if op.get('same_token'):
+            classes.add('same-token-again')
         if texts[i] == '':
             classes.add('zero-width-target')
         key = f"{op['cls']}:{kind}"
@@ -107,11 +109,21 @@ def _run(case: dict, res: Result) -> Result:
         if kind in ('raw', 'indent') and t.raw_text != op['t'] and kind == 'raw':
             res.bad(f'raw-text-not-assigned:{key}', f'{op}: the token\'s raw_text is {t.raw_text!r} after assigning {op["t"]!r}')
             break
+        if kind == 'indent' and isinstance(t, BlockComment):
+            try:
+                old = BlockComment.from_raw_text(texts[i])
+                ref_i = BlockComment.from_value(old.value, indent=op['t']).raw_text
+            except Exception:  # noqa: BLE001
+                ref_i = None
+            if ref_i is not None and new_text != ref_i:
+                res.bad(f'indent-format:{key}', f'{op} on {texts[i]!r}: raw text is {new_text!r}, the same comment re-indented is {ref_i!r}')
+                break
         if kind == 'value':
             v = a.ref['value']
             try:
                 if isinstance(t, BlockComment):
-                    ref = type(t).from_value(v, indent=t.indent).raw_text
+                    # the indent is what the text before the assignment says, not what the token remembers
+                    ref = type(t).from_value(v, indent=BlockComment.from_raw_text(texts[i]).indent).raw_text
                 else:
                     ref = type(t).from_value(v).raw_text
             except Exception:  # noqa: BLE001
@@ -133,11 +145,40 @@ def _build(tier: str):
         claim = g.p(0.7)
         lf = 4 if g.p(0.34) else 1000
         old = GS.set_lf(lf)
+        case: dict = {'dirs': g.document(), 'ops': [], 'claim': claim, 'lf': lf}
         try:
-            case = OPS.build_program(rnd, cfg, ['tokraw'], 8, lambda t: common.parse_file(t, claim))
+            try:
+                root = common.parse_file(L.text_of(case['dirs']), claim)
+            except Exception:  # noqa: BLE001
+                return case
+            prev = None
+            for _ in range(g.n(1, 8)):
+                op = OPS.gen_tok(g, root, ('value', 'raw', 'indent'))
+                if op is None:
+                    continue
+                if prev is not None and g.p(0.45):
+                    # another assignment to the same token: a stale cached field of the first shows in the second
+                    rule = prev['cls']
+                    kinds = ['raw'] + (['value'] if rule in OPS.TOKEN_VALUE_CLASSES else []) + (['indent'] if rule == 'BLOCK_COMMENT' else [])
+                    kind = g.pick(kinds)
+                    op = {'f': 'tok', 'cls': rule, 'ti': prev['ti'], 'kind': kind}
+                    if kind == 'value':
+                        op['v'] = OPS.token_value(g, rule)
+                    elif kind == 'raw':
+                        op['t'] = OPS.token_lexeme(g, rule)
+                    else:
+                        op['t'] = g.chars(' \t', 0, 5)
+                    op['same_token'] = True
+                case['ops'].append(op)
+                prev = op
+                try:
+                    OPS.resolve(root, op).run()
+                except OPS.NotApplicable:
+                    case['ops'].pop()
+                except Exception:  # noqa: BLE001
+                    break
         finally:
             GS.restore_lf(old)
-        case['claim'], case['lf'] = claim, lf
         return case
     return build
 
